@@ -1573,6 +1573,9 @@ theta_chain_comput_rec(theta_chain_t *out,
         return;
     }
     if (len == 1) {
+#ifdef SQISIGN_SQISIGN2D_WEST_AC24_VERIF
+        SQISIGN_VERIF_TRACE(31, (int)index, (int)stacklen, (int)total_length);
+#endif
 
         // first we compute the isogeny and update the codomain
 
@@ -1594,6 +1597,9 @@ theta_chain_comput_rec(theta_chain_t *out,
     } else {
         long right = 2 * len / 3;
         long left = len - right;
+#ifdef SQISIGN_SQISIGN2D_WEST_AC24_VERIF
+        SQISIGN_VERIF_TRACE(32, (int)stacklen, (int)left, (int)right);
+#endif
         P1[stacklen] = *R1;
         P2[stacklen] = *R2;
         double_iter(R1, codomain, R1, left);
@@ -1705,6 +1711,9 @@ theta_chain_comput_balanced(theta_chain_t *out,
     theta_point_t stack2[10 * log + 1];
     stack1[0] = Q1;
     stack2[0] = Q2;
+#ifdef SQISIGN_SQISIGN2D_WEST_AC24_VERIF
+    SQISIGN_VERIF_TRACE(33, n, (int)(10 * log + 1), 0);
+#endif
     theta_chain_comput_rec(out, &codomain, &R1, &R2, n - 3, 0, false, stack1, stack2, 1, n);
     Q1 = stack1[0];
     Q2 = stack2[0];
@@ -1813,11 +1822,20 @@ theta_chain_comput_strategy(theta_chain_t *out,
     // first we must compute the length of the list
     int len_count = 0;
     int index = 0;
+#ifdef SQISIGN_SQISIGN2D_WEST_AC24_VERIF
+    SQISIGN_VERIF_TRACE(20, n, eight_above, adjusting);
+#endif
     while (len_count != n - 1 - adjusting && index < n + 10) {
+#ifdef SQISIGN_SQISIGN2D_WEST_AC24_VERIF
+        SQISIGN_VERIF_TRACE(21, index, strategy[index], len_count);
+#endif
         len_count = len_count + strategy[index];
         index++;
     }
     int len_list = index + 1;
+#ifdef SQISIGN_SQISIGN2D_WEST_AC24_VERIF
+    SQISIGN_VERIF_TRACE(22, len_list, index, len_count);
+#endif
 
     theta_couple_jac_point_t points1[n];
     theta_couple_jac_point_t points2[n];
@@ -1834,12 +1852,18 @@ theta_chain_comput_strategy(theta_chain_t *out,
     // and then the rest
     // t= tic();
     for (int i = 1; i < len_list; i++) {
+#ifdef SQISIGN_SQISIGN2D_WEST_AC24_VERIF
+        SQISIGN_VERIF_TRACE(23, i, strategy[i - 1], 0);
+#endif
         double_couple_jac_point_iter(&points1[i], strategy[i - 1], E12, &points1[i - 1]);
         double_couple_jac_point_iter(&points2[i], strategy[i - 1], E12, &points2[i - 1]);
         level[i] = strategy[i - 1];
     }
 
     // prepare the kernel of the first step
+#ifdef SQISIGN_SQISIGN2D_WEST_AC24_VERIF
+    SQISIGN_VERIF_TRACE(24, len_list - 1, 0, 0);
+#endif
     copy_jac_point(&xyK1.P1, &points1[len_list - 1].P1);
     copy_jac_point(&xyK1.P2, &points1[len_list - 1].P2);
     copy_jac_point(&xyK2.P1, &points2[len_list - 1].P1);
@@ -1860,6 +1884,9 @@ theta_chain_comput_strategy(theta_chain_t *out,
     theta_precomputation(&codomain);
 
     len_list--;
+#ifdef SQISIGN_SQISIGN2D_WEST_AC24_VERIF
+    SQISIGN_VERIF_TRACE(25, len_list, 0, 0);
+#endif
 
     // push the kernel through the gluing isogeny
     // need to setup the input before
@@ -1878,7 +1905,13 @@ theta_chain_comput_strategy(theta_chain_t *out,
         for (int j = 0; j < len_list; j++) {
             len_count = len_count + level[j];
         }
+#ifdef SQISIGN_SQISIGN2D_WEST_AC24_VERIF
+        SQISIGN_VERIF_TRACE(26, i, len_list, len_count);
+#endif
         while (len_count != n - i - 2 - adjusting) {
+#ifdef SQISIGN_SQISIGN2D_WEST_AC24_VERIF
+            SQISIGN_VERIF_TRACE(27, index, len_list, strategy[index]);
+#endif
             len_count = len_count + strategy[index];
             double_iter(&Q1[len_list], &codomain, &Q1[len_list - 1], strategy[index]);
             double_iter(&Q2[len_list], &codomain, &Q2[len_list - 1], strategy[index]);
@@ -1893,6 +1926,9 @@ theta_chain_comput_strategy(theta_chain_t *out,
         // TODO : proper copying here ?
         R1 = Q1[len_list - 1];
         R2 = Q2[len_list - 1];
+#ifdef SQISIGN_SQISIGN2D_WEST_AC24_VERIF
+        SQISIGN_VERIF_TRACE(28, i, len_list - 1, (i == n - 3) ? 1 : ((i == n - 2) ? 2 : 0));
+#endif
 
         // computing the next step
         if (i == n - 3) {
@@ -1912,6 +1948,9 @@ theta_chain_comput_strategy(theta_chain_t *out,
         codomain = out->steps[i].codomain;
 
         len_list--;
+#ifdef SQISIGN_SQISIGN2D_WEST_AC24_VERIF
+        SQISIGN_VERIF_TRACE(29, i, len_list, (i < n - 2) ? 1 : 0);
+#endif
 
         // pushing the kernel
         if (i < n - 2) {
@@ -1924,6 +1963,9 @@ theta_chain_comput_strategy(theta_chain_t *out,
 
     if (!eight_above) {
         // the last two steps are done here
+#ifdef SQISIGN_SQISIGN2D_WEST_AC24_VERIF
+        SQISIGN_VERIF_TRACE(30, n - 4, n - 3, n - 2);
+#endif
         R1 = Q1[0];
         R2 = Q2[0];
         theta_isogeny_eval(&R1, &out->steps[n - 4], &R1);
@@ -2007,11 +2049,20 @@ theta_chain_comput_strategy_faster_no_eval(theta_chain_t *out,
     // first we must compute the length of the list
     int len_count = 0;
     int index = 0;
+#ifdef SQISIGN_SQISIGN2D_WEST_AC24_VERIF
+    SQISIGN_VERIF_TRACE(20, n, eight_above, adjusting);
+#endif
     while (len_count != n - 1 - adjusting && index < n + 10) {
+#ifdef SQISIGN_SQISIGN2D_WEST_AC24_VERIF
+        SQISIGN_VERIF_TRACE(21, index, strategy[index], len_count);
+#endif
         len_count = len_count + strategy[index];
         index++;
     }
     int len_list = index + 1;
+#ifdef SQISIGN_SQISIGN2D_WEST_AC24_VERIF
+    SQISIGN_VERIF_TRACE(22, len_list, index, len_count);
+#endif
 
     theta_couple_jac_point_t points1[n];
     theta_couple_jac_point_t points2[n];
@@ -2028,12 +2079,18 @@ theta_chain_comput_strategy_faster_no_eval(theta_chain_t *out,
     // and then the rest
     // t= tic();
     for (int i = 1; i < len_list; i++) {
+#ifdef SQISIGN_SQISIGN2D_WEST_AC24_VERIF
+        SQISIGN_VERIF_TRACE(23, i, strategy[i - 1], 0);
+#endif
         double_couple_jac_point_iter(&points1[i], strategy[i - 1], E12, &points1[i - 1]);
         double_couple_jac_point_iter(&points2[i], strategy[i - 1], E12, &points2[i - 1]);
         level[i] = strategy[i - 1];
     }
 
     // prepare the kernel of the first step
+#ifdef SQISIGN_SQISIGN2D_WEST_AC24_VERIF
+    SQISIGN_VERIF_TRACE(24, len_list - 1, 0, 0);
+#endif
     copy_jac_point(&xyK1.P1, &points1[len_list - 1].P1);
     copy_jac_point(&xyK1.P2, &points1[len_list - 1].P2);
     copy_jac_point(&xyK2.P1, &points2[len_list - 1].P1);
@@ -2053,6 +2110,9 @@ theta_chain_comput_strategy_faster_no_eval(theta_chain_t *out,
     theta_precomputation(&codomain);
 
     len_list--;
+#ifdef SQISIGN_SQISIGN2D_WEST_AC24_VERIF
+    SQISIGN_VERIF_TRACE(25, len_list, 0, 0);
+#endif
 
     // push the kernel through the gluing isogeny
     // need to setup the input before
@@ -2070,7 +2130,13 @@ theta_chain_comput_strategy_faster_no_eval(theta_chain_t *out,
         for (int j = 0; j < len_list; j++) {
             len_count = len_count + level[j];
         }
+#ifdef SQISIGN_SQISIGN2D_WEST_AC24_VERIF
+        SQISIGN_VERIF_TRACE(26, i, len_list, len_count);
+#endif
         while (len_count != n - i - 2 - adjusting) {
+#ifdef SQISIGN_SQISIGN2D_WEST_AC24_VERIF
+            SQISIGN_VERIF_TRACE(27, index, len_list, strategy[index]);
+#endif
             len_count = len_count + strategy[index];
             double_iter(&Q1[len_list], &codomain, &Q1[len_list - 1], strategy[index]);
             double_iter(&Q2[len_list], &codomain, &Q2[len_list - 1], strategy[index]);
@@ -2085,6 +2151,9 @@ theta_chain_comput_strategy_faster_no_eval(theta_chain_t *out,
         // TODO : proper copying here ?
         R1 = Q1[len_list - 1];
         R2 = Q2[len_list - 1];
+#ifdef SQISIGN_SQISIGN2D_WEST_AC24_VERIF
+        SQISIGN_VERIF_TRACE(28, i, len_list - 1, (i == n - 3) ? 1 : ((i == n - 2) ? 2 : 0));
+#endif
 
         // computing the next step
         if (i == n - 3) {
@@ -2104,6 +2173,9 @@ theta_chain_comput_strategy_faster_no_eval(theta_chain_t *out,
         codomain = out->steps[i].codomain;
 
         len_list--;
+#ifdef SQISIGN_SQISIGN2D_WEST_AC24_VERIF
+        SQISIGN_VERIF_TRACE(29, i, len_list, (i < n - 2) ? 1 : 0);
+#endif
 
         // pushing the kernel
         if (i < n - 2) {
@@ -2116,6 +2188,9 @@ theta_chain_comput_strategy_faster_no_eval(theta_chain_t *out,
 
     if (!eight_above) {
         // the last two steps are done here
+#ifdef SQISIGN_SQISIGN2D_WEST_AC24_VERIF
+        SQISIGN_VERIF_TRACE(30, n - 4, n - 3, n - 2);
+#endif
         R1 = Q1[0];
         R2 = Q2[0];
         theta_isogeny_eval(&R1, &out->steps[n - 4], &R1);
